@@ -35,7 +35,9 @@ def _solver_case(draw, tier, kind):
             "logqp": draw(st.sampled_from([False, True])) if spec["noise_type"] == "diagonal" else
             draw(st.sampled_from([False, False, False, True])),
             "entropy": draw(st.integers(0, 2 ** 31 - 2)), "entropy2": draw(st.integers(0, 2 ** 31 - 2)),
-            "perm_seed": draw(st.integers(0, 2 ** 31 - 1))}
+            "perm_seed": draw(st.integers(0, 2 ** 31 - 1)),
+            # the replaced rows hold a sample path that has blown up (NaN): row i must not notice
+            "others_nan": draw(st.sampled_from([False, False, False, True]))}
 
 
 class _SmallGRows(torch.nn.Module):
@@ -148,6 +150,8 @@ def run_case(case):
         y_alt = sdes.y0_for(spec, seed_offset=3) * 1.7
         if logqp and spec["noise_type"] == "diagonal":
             y_alt = y_alt + 100.0          # the replaced rows sit where the wrapped diffusion (nearly) vanishes
+        if case.get("others_nan") and not logqp:
+            y_alt = torch.full_like(y_alt, float("nan"))
         y_mix = torch.where(mask.unsqueeze(-1), y0, y_alt)
         bm_a, bm_b = mk(case["entropy"]), mk(case["entropy2"] if case["entropy2"] != case["entropy"] else case["entropy"] + 1)
 
@@ -170,6 +174,8 @@ def run_case(case):
         got = go(y_mix, proxy, sde_mix)
         ok = torch.equal(got[:, i], ref[:, i])
         changed_elsewhere = not torch.equal(got, ref)
+        if case.get("others_nan") and not logqp:
+            labels.append("other_rows_nan")
         fail = None
         if not ok:
             d = float((got[:, i] - ref[:, i]).abs().max())
